@@ -22,8 +22,9 @@ SPEC = Spec(
         "and the case labels of every hand-written jsoniter reader; slot order = marshal order (one-of at its largest member)",
         "the generic codec model (Model/C08.lean) stands for the gogo-GENERATED per-message code and for jsonpb/jsoniter glue; "
         "tied by byte-exact / value-exact differential on every run",
-        "text-level codecs (decimal, float<->text, base64, hex) are a lawful-pair parameter of the JSON theorems; the driver's concrete "
-        "instances and Go's strconv/encoding are compared on every sampled value (float table given by the harness, law checked per entry)",
+        "float64<->text (encoding/json formatting, strconv.ParseFloat) is a lawful-pair parameter (FloatLaws) of the JSON theorems: the harness "
+        "gives the per-case table and checks the law per entry; decimal / hex / base64 are concrete model functions with PROVED laws "
+        "(C08_txt_laws), the same functions the driver runs against the real code",
         "jsoniter lexer, encoding/json string escaping; UTF-8 validity of strings is assumed (invalid UTF-8 is replaced by jsonpb)",
         "harness value (de)serialisation by reflection (toVal) and its canonical form: nil == empty slice, zero id == empty, "
         "-0.0 == +0.0 in plain proto3 double fields (the generated `!= 0` test drops it on both codecs)",
